@@ -38,6 +38,8 @@ pub struct RunStats {
     pub atomic_ops_seen: u64,
     pub futex_waits_as_yield: u64,
     pub futex_timeouts_fired: u64,
+    pub futex_wakes: u64,
+    pub futex_spurious_wakeups: u64,
     pub edges_seen: u64,
     pub log_records: u64,
     pub decisions: u64,
@@ -57,6 +59,8 @@ thread_local! {
     static ATOMIC_THIN: Cell<u32> = const { Cell::new(0) };
     static ATOMIC_COUNTER: Cell<u64> = const { Cell::new(0) };
     static FUTEX_YIELDS: Cell<u64> = const { Cell::new(0) };
+    /// (1/k chance of an injected spurious futex wake-up per yield of a waiter; 0 = never, salt)
+    static SPURIOUS: Cell<(u32, u64)> = const { Cell::new((0, 0)) };
     /// control-flow edges executed by the instrumented build in this run (any task): the progress measure
     static PROGRESS: Cell<u64> = const { Cell::new(0) };
     /// (progress value at the last futex yield, consecutive futex yields at that value)
@@ -296,49 +300,144 @@ mod sysseam {
         ret
     }
 
+    const FUTEX_WAKE: i32 = 1;
+    const FUTEX_WAKE_BITSET: i32 = 10;
+
+    thread_local! {
+        /// the simulator's futex table: address -> waiting tasks in arrival order, with their "woken" flag
+        static WAITERS: RefCell<std::collections::BTreeMap<usize, Vec<(usize, bool)>>> = const { RefCell::new(std::collections::BTreeMap::new()) };
+    }
+
+    pub fn reset() {
+        WAITERS.with(|w| w.borrow_mut().clear());
+    }
+
+    fn current_task() -> Option<usize> {
+        shuttle_engine::runtime::execution::ExecutionState::try_with(|s| s.try_current().map(|t| usize::from(t.id()))).ok().flatten()
+    }
+
+    fn take_if_woken(addr: usize, me: usize) -> bool {
+        WAITERS.with(|w| {
+            let mut w = w.borrow_mut();
+            let Some(v) = w.get_mut(&addr) else { return true };
+            match v.iter().position(|(t, _)| *t == me) {
+                Some(i) if v[i].1 => {
+                    v.remove(i);
+                    if v.is_empty() {
+                        w.remove(&addr);
+                    }
+                    true
+                }
+                Some(_) => false,
+                None => true,
+            }
+        })
+    }
+
+    fn unregister(addr: usize, me: usize) {
+        WAITERS.with(|w| {
+            let mut w = w.borrow_mut();
+            if let Some(v) = w.get_mut(&addr) {
+                v.retain(|(t, _)| *t != me);
+                if v.is_empty() {
+                    w.remove(&addr);
+                }
+            }
+        });
+    }
+
     /// # Safety
     /// Same contract as libc's variadic `syscall` (integer / pointer arguments only, as on x86-64 Linux).
     #[no_mangle]
     pub unsafe extern "C" fn syscall(n: libc::c_long, a1: usize, a2: usize, a3: usize, a4: usize, a5: usize, a6: usize) -> libc::c_long {
-        if n == libc::SYS_futex {
+        if n == libc::SYS_futex && ACTIVE.with(|a| a.get()) {
             let cmd = (a2 as i32) & FUTEX_CMD_MASK;
-            if (cmd == FUTEX_WAIT || cmd == FUTEX_WAIT_BITSET) && ACTIVE.with(|a| a.get()) && may_switch() {
+            if cmd == FUTEX_WAKE || cmd == FUTEX_WAKE_BITSET {
+                // wake up to a3 tasks waiting on this word IN THE SIMULATOR (no simulated task ever waits in the
+                // kernel; also reached from drop glue during unwinding, where no switch is taken: none is needed)
+                let mut woken = 0usize;
+                WAITERS.with(|w| {
+                    if let Some(v) = w.borrow_mut().get_mut(&a1) {
+                        for e in v.iter_mut() {
+                            if woken >= a3 {
+                                break;
+                            }
+                            if !e.1 {
+                                e.1 = true;
+                                woken += 1;
+                            }
+                        }
+                    }
+                });
+                STATS.with(|s| s.borrow_mut().futex_wakes += 1);
+                return woken as libc::c_long;
+            }
+            if (cmd == FUTEX_WAIT || cmd == FUTEX_WAIT_BITSET) && may_switch() {
                 let word = &*(a1 as *const std::sync::atomic::AtomicU32);
                 if word.load(std::sync::atomic::Ordering::SeqCst) != a3 as u32 {
                     *libc::__errno_location() = libc::EAGAIN;
                     return -1;
                 }
-                let used = FUTEX_YIELDS.with(|c| {
-                    let v = c.get() + 1;
-                    c.set(v);
-                    v
-                });
-                // consecutive futex waits (of any task) during which no task executed a single edge of the code
-                // under test: nobody is making progress
-                let progress = PROGRESS.with(|p| p.get());
-                let (last, streak) = FUTEX_STREAK.with(|c| c.get());
-                let streak = if last == progress { streak + 1 } else { 1 };
-                FUTEX_STREAK.with(|c| c.set((progress, streak)));
+                let Some(me) = current_task() else { return fallthrough(n, a1, a2, a3, a4, a5, a6) };
+                // The wait is modelled faithfully: the task stays parked (it only yields to the simulated
+                // scheduler) until a FUTEX_WAKE on this word picks it, so a lost wake-up stays lost.  A spurious
+                // wake-up -- which the futex contract allows -- is an injected fault, on in some runs only.
+                WAITERS.with(|w| w.borrow_mut().entry(a1).or_default().push((me, false)));
                 let timed = a4 != 0;
-                if timed && streak > TIMED_WAIT_YIELDS {
-                    // a wait with a deadline: simulated time jumps past it once nobody else can run usefully
-                    FUTEX_STREAK.with(|c| c.set((progress, 0)));
-                    STATS.with(|s| s.borrow_mut().futex_timeouts_fired += 1);
-                    *libc::__errno_location() = libc::ETIMEDOUT;
-                    return -1;
-                }
-                if !timed && streak > DEADLOCK_STREAK {
-                    // Every decision of the (fair-on-yield) scheduler over the whole window ran a task that went
-                    // straight back to waiting, and the words they wait on are unchanged: no task can ever move.
-                    // The wait is handed to the kernel; run_sim recognises the parked thread and reports it.
-                    DEADLOCKED.store(true, std::sync::atomic::Ordering::SeqCst);
-                } else if used <= FUTEX_YIELD_BUDGET {
-                    STATS.with(|s| s.borrow_mut().futex_waits_as_yield += 1);
+                let (spurious, salt) = SPURIOUS.with(|c| c.get());
+                STATS.with(|s| s.borrow_mut().futex_waits_as_yield += 1);
+                let mut my_yields = 0u64;
+                loop {
+                    let used = FUTEX_YIELDS.with(|c| {
+                        let v = c.get() + 1;
+                        c.set(v);
+                        v
+                    });
+                    // consecutive futex yields (of any task) during which no task executed a single edge of the
+                    // code under test: nobody is making progress
+                    let progress = PROGRESS.with(|p| p.get());
+                    let (last, streak) = FUTEX_STREAK.with(|c| c.get());
+                    let streak = if last == progress { streak + 1 } else { 1 };
+                    FUTEX_STREAK.with(|c| c.set((progress, streak)));
+                    if timed && my_yields > TIMED_WAIT_YIELDS {
+                        // a wait with a deadline: simulated time jumps past it
+                        unregister(a1, me);
+                        STATS.with(|s| s.borrow_mut().futex_timeouts_fired += 1);
+                        *libc::__errno_location() = libc::ETIMEDOUT;
+                        return -1;
+                    }
+                    if (!timed && streak > DEADLOCK_STREAK) || used > FUTEX_YIELD_BUDGET {
+                        if streak > DEADLOCK_STREAK {
+                            // Every decision of the (fair-on-yield) scheduler over the whole window ran a task
+                            // that is parked on a futex nobody has woken, and no task executed any code: no task
+                            // can ever move.  The wait is handed to the kernel; run_sim recognises the parked
+                            // thread and reports the deadlock with the recorded schedule.
+                            DEADLOCKED.store(true, std::sync::atomic::Ordering::SeqCst);
+                        }
+                        unregister(a1, me);
+                        return fallthrough(n, a1, a2, a3, a4, a5, a6);
+                    }
                     shuttle::thread::yield_now();
-                    return 0;
+                    my_yields += 1;
+                    if take_if_woken(a1, me) {
+                        return 0;
+                    }
+                    if spurious != 0 {
+                        let h = (used ^ salt).wrapping_mul(0x9E37_79B9_7F4A_7C15);
+                        if (h >> 33) % spurious as u64 == 0 {
+                            unregister(a1, me);
+                            STATS.with(|s| s.borrow_mut().futex_spurious_wakeups += 1);
+                            return 0;
+                        }
+                    }
                 }
             }
         }
+        fallthrough(n, a1, a2, a3, a4, a5, a6)
+    }
+
+    #[inline]
+    unsafe fn fallthrough(n: libc::c_long, a1: usize, a2: usize, a3: usize, a4: usize, a5: usize, a6: usize) -> libc::c_long {
         let r = raw6(n, a1, a2, a3, a4, a5, a6);
         if (-4095..0).contains(&r) {
             *libc::__errno_location() = -r as i32;
@@ -704,6 +803,9 @@ mod simexec {
                 ATOMIC_THIN.with(|t| t.set(knobs.atomic_thin));
                 ATOMIC_COUNTER.with(|c| c.set(0));
                 FUTEX_YIELDS.with(|c| c.set(0));
+                SPURIOUS.with(|c| c.set((knobs.spurious_wake, knobs.sched_seed.rotate_left(41))));
+                #[cfg(all(not(miri), target_arch = "x86_64", target_os = "linux"))]
+                sysseam::reset();
                 PROGRESS.with(|c| c.set(0));
                 FUTEX_STREAK.with(|c| c.set((0, 0)));
                 EDGE_COUNTER.with(|c| c.set(0));
@@ -795,6 +897,8 @@ mod simexec {
     stats.atomic_ops_seen = tl_stats.atomic_ops_seen;
     stats.futex_waits_as_yield = tl_stats.futex_waits_as_yield;
     stats.futex_timeouts_fired = tl_stats.futex_timeouts_fired;
+    stats.futex_wakes = tl_stats.futex_wakes;
+    stats.futex_spurious_wakeups = tl_stats.futex_spurious_wakeups;
     stats.edges_seen = tl_stats.edges_seen;
         stats.log_records = tl_stats.log_records;
         let value = slot.lock().unwrap().take();
@@ -804,7 +908,7 @@ mod simexec {
     /// shuttle installs its own (chatty) panic hook once, at the first execution;
     /// trigger that now and then put the silent hook back.
     pub fn warm_up() {
-        let knobs = SimKnobs { threads: 2, steal_p: 65536, log_thin: 1, strategy: Strategy::Random, sched_seed: 0, edge_thin: 0, atomic_thin: 0 };
+        let knobs = SimKnobs { threads: 2, steal_p: 65536, log_thin: 1, strategy: Strategy::Random, sched_seed: 0, edge_thin: 0, atomic_thin: 0, spurious_wake: 0 };
         let o = run_sim(&knobs, None, Some(0), || {
             let (a, b) = rayon_core::join(|| 1, || 2);
             a + b
